@@ -8,13 +8,17 @@ from vlib import hexd, frac, frac_of_hex, unhex
 EPS = 2.0 ** -52
 
 
-STYLES = ["dyadic", "full", "tinyscale", "illcond", "rankdef", "scalar", "tall", "identityH", "diagonal", "zeroinnov", "symH", "hugescale", "mixedscale", "neardup", "full"]
+STYLES = ["dyadic", "full", "tinyscale", "illcond", "rankdef", "scalar", "tall", "identityH", "diagonal", "zeroinnov", "symH", "hugescale", "mixedscale", "neardup", "full", "selector", "blockdup", "microscale", "bigdim", "zerorowcorr"]
 
 
 def scale_of(r, style, which):
     """overall magnitude of a covariance: the property constrains conditioning, not scale"""
     if style == "tinyscale":
         return 10 ** r.uniform(-10, -4)
+    if style == "microscale":
+        # every entry of P and R far below 1e-12 (Eigen's isZero / isMuchSmallerThan defaults), det R far below
+        # DBL_EPSILON, everything perfectly conditioned: the property bounds conditioning, not magnitude
+        return 10 ** r.uniform(-24, -13)
     if style == "hugescale":
         return 10 ** r.uniform(4, 10)
     if style == "mixedscale":
@@ -27,7 +31,17 @@ def gen_model(g, tier, idx):
     r = g.r
     big = 6 if tier == "quick" else 7
     style = STYLES[idx % len(STYLES)] if idx < 3 * len(STYLES) else r.choice(STYLES)
-    if idx < 36:
+    g.big = False
+    if style == "bigdim":
+        # Eigen switches product / inverse kernels with the size (lazy coefficient products below
+        # rows+cols+depth = 20, closed-form inverses up to 4x4): in-place / aliasing rewrites show from 7-8 on
+        n, m = r.choice([7, 8, 9, 12]), r.choice([5, 7, 8, 12])
+        if idx < len(STYLES):
+            n, m = 12, 12
+        style = "dyadic"                              # short mantissas: the exact rational side stays cheap
+        g.big = True
+        g.bigsel = r.choice([0, 0, 1, 2])             # dense H / scaled signed selector / some all-zero rows
+    elif idx < 36:
         n, m = idx // 6 + 1, idx % 6 + 1          # the whole (n, m) grid 1..6 x 1..6 first
         if style in ("identityH", "symH"):
             m = n
@@ -40,8 +54,11 @@ def gen_model(g, tier, idx):
         m = r.randint(n + 1, min(big, n + 3))
     elif style in ("identityH", "symH"):
         n = m = r.randint(1, big)
+    elif style == "blockdup":
+        n, m = r.randint(2, big), r.randint(2, big)
     else:
         n, m = r.randint(1, big), r.randint(1, big)
+    g.blk = (max(1, n // 2), 10 ** r.uniform(-20, -13))
     H, R = gen_HR(g, style, n, m)
     return style, n, m, H, R
 
@@ -59,6 +76,13 @@ def gen_HR(g, style, n, m):
             sc = 10 ** r.uniform(-6, -3)           # a precise sensor: the weak directions of P matter
         R = g.spd(m, cond=cond, scale=sc)
         H = g.mat(m, n)
+    if getattr(g, "big", False) and getattr(g, "bigsel", 0) == 1:
+        H = [[0.0] * n for _ in range(m)]
+        for i in range(m):
+            H[i][r.randrange(n)] = r.choice([-1.0, 2.5, -0.5, 3.0, -4.0])
+    if getattr(g, "big", False) and getattr(g, "bigsel", 0) == 2:
+        for i in r.sample(range(m), max(1, m // 3)):
+            H[i] = [0.0] * n
     if style == "identityH":
         H = [[1.0 if i == j else 0.0 for j in range(n)] for i in range(m)]
     if style == "symH":
@@ -66,6 +90,23 @@ def gen_HR(g, style, n, m):
     if style == "diagonal":
         H = [[(H[i][j] if i == j else 0.0) for j in range(n)] for i in range(m)]
         R = [[(R[i][j] if i == j else 0.0) for j in range(m)] for i in range(m)]
+    if style == "selector":
+        # every row has exactly one non-zero entry, not equal to 1: a state component in other units / along an
+        # inverted axis (scaled, signed selectors; columns may repeat or stay unobserved)
+        H = [[0.0] * n for _ in range(m)]
+        for i in range(m):
+            H[i][r.randrange(n)] = r.choice([-1.0, 2.5, -0.5, 1e3, -1e-3, 3.0, r.uniform(-4, 4) or 2.0])
+    if style == "zerorowcorr":
+        # measurement channels that do not see the state (all-zero rows of H) whose noise is correlated with the
+        # noise of the other channels: they are informative through R
+        for i in r.sample(range(m), r.randint(1, max(1, m - 1)) if m > 1 else 1):
+            H[i] = [0.0] * n
+        R = g.spd(m, cond=10 ** r.uniform(0.5, 2))
+    if style == "blockdup":
+        # trailing block of the state at a scale ts (1e-13 .. 1e-20) observed in fine units (H ~ ts^-1/2): S = O(1)
+        n1, ts = g.blk
+        m1 = max(1, m // 2)
+        H = [[(H[i][j] if (i < m1) == (j < n1) else 0.0) * (ts ** -0.5 if j >= n1 else 1.0) for j in range(n)] for i in range(m)]
     if style == "rankdef" or (style == "tall" and r.random() < 0.5):
         mode = r.choice(["zero", "zerorow", "duprow", "rank1"])
         if mode == "zero":
@@ -83,6 +124,8 @@ def gen_HR(g, style, n, m):
 def gen_call(g, style, n, m, H):
     r = g.r
     k = r.choice([1, 1, 2, 3, 4, 6])
+    if getattr(g, "big", False):
+        k = r.choice([1, 2])
     if style == "dyadic":
         Ps = [g.spd_dyadic(n) for _ in range(k)]
         means = [[g.dyadic(-4, 4, 3) for _ in range(n)] for _ in range(k)]
@@ -104,6 +147,19 @@ def gen_call(g, style, n, m, H):
             l2[-1] = lam[-1] * (1.0 + t)
             Ps.append(g.assemble(U, l2))
         means = [g.vec(n) for _ in range(k)]
+    if style == "blockdup":
+        # consecutive components with the same leading block (scale 1) and trailing blocks (scale ts) that differ
+        # by O(1) relative to their own scale: equal for Eigen's isApprox (1e-12 relative to the whole matrix)
+        k = r.choice([2, 3, 4])
+        n1, ts = g.blk
+        A = g.spd(n1, cond=10 ** r.uniform(0, 3), scale=10 ** r.uniform(-1, 1))
+        Ps = []
+        for c in range(k):
+            B = g.spd(n - n1, cond=10 ** r.uniform(0, 2), scale=ts * r.choice([1.0, 2.0, 0.5, 3.0]))
+            Ps.append([[(A[i][j] if i < n1 and j < n1 else (B[i - n1][j - n1] if i >= n1 and j >= n1 else 0.0)) for j in range(n)] for i in range(n)])
+        means = [g.vec(n) for _ in range(k)]
+        means = [list(mm_[:n1]) + [ts ** 0.5 * v for v in mm_[n1:]] for mm_ in means]
+        y = g.vec(m)
     if style == "diagonal":
         Ps = [[[(P[i][j] if i == j else 0.0) for j in range(n)] for i in range(n)] for P in Ps]
     if style == "zeroinnov":
@@ -122,7 +178,7 @@ def gen_case(g, tier, idx):
     the likelihood queried 1..3 times after each -> (harness line, [single-call kfc lines], meta)"""
     r = g.r
     style, n, m, H, R = gen_model(g, tier, idx)
-    ncalls = r.choice([1, 1, 2, 3])
+    ncalls = r.choice([1, 1, 2, 3]) if not g.big else 1
     seq = ["kfcv", str(n), str(m), str(ncalls)]
     singles = []
     varied = handed = 0
@@ -148,7 +204,7 @@ def gen_case(g, tier, idx):
         wmodes[wmode] = wmodes.get(wmode, 0) + 1
         seq += [str(hand), str(len(hist))] + hist + head + toks[:m] + [str(nlik), str(wmode), str(k)] + toks[m:]
         singles.append(" ".join(["kfc", str(n), str(m), str(k)] + head + toks))
-    return " ".join(seq), singles, {"style": style, "n": n, "m": m, "calls": ncalls, "model_changes": varied, "hand_overs": handed, "wmodes": wmodes}
+    return " ".join(seq), singles, {"style": style + ("@bigdim" if g.big else ""), "n": n, "m": m, "calls": ncalls, "model_changes": varied, "hand_overs": handed, "wmodes": wmodes}
 
 
 def split_seq_output(hout, ncalls):
@@ -258,6 +314,17 @@ def check_case(ctx, line, meta, hout, dout, iout, stats, lout=None, exact_info=T
         nx = max([abs(float(v)) for v in means[c]] + [0.0])
         tolm = 64 * EPS * kS * (Kn * nnu + nx + 1e-300) * max(n, m)
         stats["max_kS"] = max(stats.get("max_kS", 0.0), kS)
+        # the same bounds in equilibrated state coordinates x_i / d_i, d_i = sqrt(P_ii) (the correction is covariant
+        # under a diagonal rescaling of the state, and so is its rounding: row i of P H^T, of K and of K S K^T scales
+        # with d_i): entry (i, j) of the covariance is held to d_i d_j times the bound of the scaled problem, which
+        # keeps the check sensitive at the scale of a small block - a bound relative to the whole matrix hides O(1)
+        # errors there
+        dS = [max(float(P[i][i]), 0.0) ** 0.5 for i in range(n)]
+        nPs = (sum((float(P[i][j]) / (dS[i] * dS[j])) ** 2 for i in range(n) for j in range(n) if dS[i] and dS[j]) ** 0.5) * n
+        nHs = (sum((float(H[a][j]) * dS[j]) ** 2 for a in range(m) for j in range(n)) ** 0.5) * max(n, m)
+        Ks = nPs * nHs * nSi
+        tolPs = 64 * EPS * kS * (Ks * Ks * nS + nPs) * max(n, m)
+        tolms = 64 * EPS * kS * Ks * nnu * max(n, m)
         # theorem instance on the executed ℚ model: gain form == information form, exactly
         # (prior exactly symmetric: the theorem's hypothesis; beliefs a filter reaches are symmetric up to rounding only)
         if exact_info and (mP[c] != oP[c] or mm[c] != om[c]):
@@ -276,10 +343,14 @@ def check_case(ctx, line, meta, hout, dout, iout, stats, lout=None, exact_info=T
         # property predicates on the implementation's own output
         errPo = max(abs(Fraction(cP[c][i][j]) - oP[c][i][j]) for i in range(n) for j in range(n))
         errmo = max(abs(Fraction(cm[c][i]) - om[c][i]) for i in range(n))
-        if errPo > tolP:
-            probs.append(("prop", "cov-not-posterior", "component %d: covariance is not (P^-1+H^T R^-1 H)^-1: err %.3g tol %.3g" % (c, float(errPo), tolP)))
-        if errmo > tolm:
-            probs.append(("prop", "mean-not-posterior", "component %d: mean is not the posterior mean: err %.3g tol %.3g" % (c, float(errmo), tolm)))
+        relE = max(float(abs(Fraction(cP[c][i][j]) - oP[c][i][j])) / (dS[i] * dS[j] * tolPs + 1e-300) for i in range(n) for j in range(n))
+        relmE = max(float(abs(Fraction(cm[c][i]) - om[c][i])) / (dS[i] * tolms + 64 * EPS * kS * max(n, m) * abs(float(means[c][i])) + 1e-300) for i in range(n))
+        stats["max_relerr_cov_scaled"] = max(stats.get("max_relerr_cov_scaled", 0.0), relE)
+        stats["max_relerr_mean_scaled"] = max(stats.get("max_relerr_mean_scaled", 0.0), relmE)
+        if errPo > tolP or relE > 1.0:
+            probs.append(("prop", "cov-not-posterior", "component %d: covariance is not (P^-1+H^T R^-1 H)^-1: err %.3g tol %.3g (in equilibrated state coordinates: %.3g of the bound)" % (c, float(errPo), tolP, relE)))
+        if errmo > tolm or relmE > 1.0:
+            probs.append(("prop", "mean-not-posterior", "component %d: mean is not the posterior mean: err %.3g tol %.3g (in equilibrated state coordinates: %.3g of the bound)" % (c, float(errmo), tolm, relmE)))
         asym = max(abs(cP[c][i][j] - cP[c][j][i]) for i in range(n) for j in range(n))
         if asym > 2 * tolP:
             probs.append(("prop", "cov-asymmetric", "component %d: corrected covariance asymmetric by %.3g" % (c, asym)))
@@ -406,7 +477,7 @@ def run(ctx):
     ctx.proof_stage()
     binary = vlib.build_harness("h_kf")
     g = ctx.gen("kfc")
-    N = ctx.n(85, 320)
+    N = ctx.n(72, 320)
     cases = []   # (harness line, [kfc single lines], meta)
     corpus = vlib.VERIF / "corpus" / "C01" / "cases.txt"
     if corpus.exists():
@@ -466,7 +537,7 @@ def run(ctx):
     from checks import kfhist
     hstats, pstats = {}, {}
     if not ctx.replay or hist_replay:
-        hists = [hist_replay] if hist_replay else [kfhist.gen_history(ctx.gen("kfh"), i, ctx.tier) for i in range(ctx.n(26, 120))]
+        hists = [hist_replay] if hist_replay else [kfhist.gen_history(ctx.gen("kfh"), i, ctx.tier) for i in range(ctx.n(21, 120))]
         hp, hc, hstats = kfhist.run_histories(ctx, binary, hists, "C01")
         prop_bad += hp
         corr_bad += hc
